@@ -677,8 +677,19 @@ func (ld *loader) resolveDependencies(ctx context.Context, rootPkgPaths []string
 			return rs, pkgs, nil
 		}
 
-		// TODO the original code calls updateRequirements at this point.
-		// /home/rogpeppe/go/src/cmd/go/internal/modload/load.go:1124
+		// Make the roots consistent with the packages that were loaded
+		// before resolving anything else: a module file that lists a
+		// dependency at a version lower than one required by another listed
+		// dependency must not keep that lower version.
+		// (The original code calls updateRequirements at this point;
+		// see cmd/go/internal/modload/load.go.)
+		if newRs, err := ld.updateRoots(ctx, rs, pkgs, nil); err != nil {
+			return nil, nil, fmt.Errorf("cannot tidy requirements: %v", err)
+		} else if !slices.Equal(newRs.RootModules(), rs.RootModules()) {
+			// Don't resolve missing imports until the module graph has stabilized.
+			rs = newRs
+			continue
+		}
 
 		modAddedBy, defaultMajorVersions := ld.resolveMissingImports(ctx, pkgs, rs)
 		if !maps.Equal(defaultMajorVersions, rs.DefaultMajorVersions()) {
